@@ -101,7 +101,7 @@ def Coerce.degree (c : Coerce) (v : Nat) : Option Degree :=
 
 /-! ## strconv.ParseUint(s, 10, 64), strings.Contains, strings.Trim -/
 
-def isDigit (c : Char) : Bool := '0' ≤ c && c ≤ '9'
+def isDigit (c : Char) : Bool := c.isDigit
 
 def digitsVal (s : List Char) : Nat := s.foldl (fun a c => 10 * a + (c.toNat - 48)) 0
 
